@@ -786,7 +786,7 @@ class _Session:
                         t = threading.Timer(0.02, self.release)
                         self.timers.append(t)
                         t.start()
-                    return self._join_watched(None, 20.0)
+                    return self._join_watched(None, 10.0)
                 timeout = {"t": TIMEOUT, "5": 5.0, "0": 0, "0.0": 0.0}[w[1]]
                 return self._join_watched(timeout, 12.0 if w[1] == "5" else 2.0)
             if w[0] == "cancel":
